@@ -410,47 +410,52 @@ pub fn matrix(expression: Expression) -> Expression {
     }
 }
 
+// Strip a leading and a trailing `.*` from an (unanchored) regex when they are plain wildcards.
+fn strip_wildcards(pattern: &str) -> &str {
+    let mut pattern = pattern;
+    if let Some(tail) = pattern.strip_prefix(".*") {
+        // NOTE: `.*?`, `.*+`, `.**` & `.*{n}` carry on quantifying the wildcard
+        if !tail.starts_with(['?', '+', '*', '{']) {
+            pattern = tail;
+        }
+    }
+    if let Some(head) = pattern.strip_suffix(".*") {
+        // NOTE: After an odd number of backslashes the `.` is a literal dot
+        if head.chars().rev().take_while(|c| *c == '\\').count() % 2 == 0 {
+            pattern = head;
+        }
+    }
+    pattern
+}
+
 fn rewrite_search(search: Search) -> Search {
     match search {
         Search::Regex(regex, insensitive) => {
             #[cfg(feature = "verif")]
             crate::verif::hit(crate::verif::Arm::OPT_REWRITE_REGEX);
-            let mut pattern = regex.as_str().to_owned();
-            if let Some(tail) = pattern.strip_prefix(".*") {
-                pattern = tail.to_owned();
+            let pattern = strip_wildcards(regex.as_str());
+            match RegexBuilder::new(pattern)
+                .case_insensitive(insensitive)
+                .build()
+            {
+                Ok(stripped) => Search::Regex(stripped, insensitive),
+                Err(_) => Search::Regex(regex, insensitive),
             }
-            if let Some(head) = pattern.strip_suffix(".*") {
-                pattern = head.to_owned();
-            }
-            Search::Regex(
-                RegexBuilder::new(&pattern)
-                    .case_insensitive(insensitive)
-                    .build()
-                    .expect("could not build regex"),
-                insensitive,
-            )
         }
         Search::RegexSet(regex, insensitive) => {
             #[cfg(feature = "verif")]
             crate::verif::hit(crate::verif::Arm::OPT_REWRITE_REGEX_SET);
             let mut patterns = vec![];
             for pattern in regex.patterns() {
-                let mut pattern = pattern.to_owned();
-                if let Some(tail) = pattern.strip_prefix(".*") {
-                    pattern = tail.to_owned();
-                }
-                if let Some(head) = pattern.strip_suffix(".*") {
-                    pattern = head.to_owned();
-                }
-                patterns.push(pattern);
+                patterns.push(strip_wildcards(pattern).to_owned());
             }
-            Search::RegexSet(
-                RegexSetBuilder::new(patterns)
-                    .case_insensitive(insensitive)
-                    .build()
-                    .expect("could not build regex"),
-                insensitive,
-            )
+            match RegexSetBuilder::new(patterns)
+                .case_insensitive(insensitive)
+                .build()
+            {
+                Ok(stripped) => Search::RegexSet(stripped, insensitive),
+                Err(_) => Search::RegexSet(regex, insensitive),
+            }
         }
         _ => search,
     }
